@@ -359,16 +359,6 @@ lyd_validate_autodel_node_del(struct lyd_node **first, struct lyd_node *del, con
 }
 
 /**
- * @brief Transient data node flag used only while "when" conditions are being resolved in ::lyd_validate_unres().
- *
- * The node had ::LYD_WHEN_TRUE set when the resolution started (from a previous validation or because it was
- * created as an implicit node) so it is auto-deleted instead of causing an error in case its "when" is false now.
- * The ::LYD_WHEN_TRUE flag itself is cleared for as long as the "when" is not evaluated again so that conditions
- * of other nodes referencing the node are postponed (LY_EINCOMPLETE) instead of using its out-of-date state.
- */
-#define LYD_VAL_WHEN_WAS_TRUE 0x80000000
-
-/**
  * @brief Evaluate when conditions of collected unres nodes.
  *
  * @param[in,out] tree Data tree, is updated if some nodes are autodeleted.
